@@ -159,6 +159,8 @@ pub struct EntityCfg {
     /// add_headers adds one more header whose value grows with every call (a setting reloaded at run time,
     /// an Age that counts up): whatever the entity adds, it must be asked once per response
     pub volatile_hdrs: bool,
+    /// etag() takes this long (a validator computed on demand, e.g. a content hash)
+    pub slow_etag_ms: u64,
 }
 
 #[derive(Default)]
@@ -226,6 +228,9 @@ impl http_serve::Entity for ScriptedEntity {
         }
     }
     fn etag(&self) -> Option<HeaderValue> {
+        if self.cfg.slow_etag_ms > 0 {
+            std::thread::sleep(Duration::from_millis(self.cfg.slow_etag_ms));
+        }
         self.cfg.etag.as_ref().map(|e| HeaderValue::from_bytes(e).unwrap())
     }
     fn last_modified(&self) -> Option<SystemTime> {
